@@ -28,7 +28,7 @@ class Ctx:
         self._flow = None
         self._effects = None
         self._norm = None
-        self.use_cache = use_cache and not overlay
+        self.use_cache = use_cache  # the cache key is the digest of the (overlaid) sources
         self.chk = Check(prop, tier, seed)
         self.engines: list[PathEngine] = []
 
@@ -125,6 +125,11 @@ def run_property(prop, tier="quick", seed=0, overlay=None, root=REPO_ROOT, write
         ctx.chk.undecided = list(getattr(mod, "UNDECIDED", []))
         ctx.chk.assumptions = list(getattr(mod, "ASSUMPTIONS", []))
         mod.run(ctx)
+        # a rule that was declared but judged nothing passed vacuously: the
+        # code that evaluates it was skipped or its anchor vanished
+        empty = sorted(set(ctx.chk.rule_texts) - {i["rule"] for i in ctx.chk.instances})
+        if empty:
+            raise AnalysisError(f"rule(s) {', '.join(empty)} declared but no instance was evaluated")
         if ctx.thorough and ctx._res is not None and ctx._res.disagreements:
             raise AnalysisError(
                 "resolver disagreement (oracle vs annotations): "
@@ -140,6 +145,17 @@ def run_property(prop, tier="quick", seed=0, overlay=None, root=REPO_ROOT, write
                     "self-validation corpus disagrees with the checker: "
                     + "; ".join(summary.get("disagreements", [])[:3])
                 )
+            if not ctx.chk.unlisted():
+                # stored patches only make sense against a tree that holds
+                from .selftest import patches
+
+                st, summary = patches.run_for_property(prop, verbose=not quiet)
+                ctx.chk.analysed["patch_corpus"] = summary
+                if st != 0:
+                    raise AnalysisError(
+                        "patch corpus disagrees with the checker: "
+                        + "; ".join(summary.get("disagreements", [])[:3])
+                    )
         ctx.record_analysed()
         code = ctx.chk.finish(write_evidence=write, quiet=quiet)
         return code, ctx.chk, None
